@@ -130,7 +130,15 @@ def check_c19(prog, rep, tier, cfg):
         consts = []
         for st in prog.statics:
             pass
-        rep.check(seq.count("pop") == 2 and "push" in seq and "is_file" in seq, R, "ancestor-walk-shape", "find_config_file no longer does push(name); is_file; pop; pop per level: %s" % seq, instance={"path_calls": seq})
+        fam = [ff] + [x for x in prog.bodies.values() if x.npath.startswith(ff.npath + "::")]
+        seq = sorted(c.callee.split("::")[-1] for x in fam for c in x.calls() if (c.callee or "").startswith("std::path::"))
+        iters = sorted(c.callee.split("::")[-1] for x in fam for c in x.calls() if (c.callee or "").startswith("core::iter::"))
+        names = [v for x in fam for c in x.calls() for v in const_args(x, c)] + [str(st.get("value", "")) for st in []]
+        form_loop = seq.count("pop") == 2 and "push" in seq and "is_file" in seq
+        # .. or the library's own ancestor walk: every ancestor (nearest first, no skipping / limiting adaptor), first one that has the file
+        form_iter = "ancestors" in seq and "join" in seq and "is_file" in seq and bool(iters) and set(iters) <= {"map", "find", "find_map", "into_iter"} and ("find" in iters or "find_map" in iters)
+        rep.check(form_loop or form_iter, R, "ancestor-walk-shape", "find_config_file neither does push(name); is_file; pop; pop per level nor searches Path::ancestors() unadapted for the first directory that has the file: path calls %s, iterator calls %s" % (seq, iters),
+                  instance={"path_calls": seq, "iterator_calls": iters, "form": "loop" if form_loop else "ancestors().find"})
     # ---------------------------------------------------------------- C19.b strictness of deserialisation
     R = "C19.b"
     fv = prog.body("<pasfmt::_::<impl serde::de::Deserialize for pasfmt::FormattingConfig>::deserialize::__FieldVisitor as serde::de::Visitor>::visit_str")
